@@ -67,7 +67,7 @@ theorem header_only_in_S0 (address : Nat) (data : List Nat) (hd : ∀ b ∈ data
   exact ⟨_, typ, dataRecs typ address (Model.SRec.chunks30 data), h5, h6, h1, h4, dataRecs_typ _ _ _,
     by rw [dataRecs_payload, (chunks30_spec data).1]⟩
 
-private theorem cellsOf_inj : ∀ (d d' : List Nat) (a a' : Nat), d ≠ [] →
+theorem cellsOf_inj : ∀ (d d' : List Nat) (a a' : Nat), d ≠ [] →
     cellsOf a d = cellsOf a' d' → a = a' ∧ d = d'
   | [], _, _, _, h, _ => absurd rfl h
   | _ :: _, [], _, _, _, h => by simp [cellsOf] at h
